@@ -97,6 +97,8 @@ def check(ctx):
     n_timer = n_writes = 0
     for cls in a.protos[1:]:
         cat = catalogue(a, cls)
+        from .flows import rule_hook_after_session
+        rule_hook_after_session(ctx, cat, "R-HOOK", "a SUBSCRIBE / UNSUBSCRIBE requested by the hook is written again at once by the resume loop - no timer has expired - and its first timer is overwritten")
         eng = cat.eng
         cq = cls_short(cls.qual)
         # under 3.1 the repeats of SUBSCRIBE / UNSUBSCRIBE / PUBREL carry DUP, under 3.1.1 never: the version consulted must be
